@@ -1,8 +1,9 @@
 (* C17 -- a process crash at any point never makes Darr return wrong data. *)
 From Coq Require Import ZArith List Bool.
+From Coq Require String.
 From Darr Require Import Base ArrayModel RaggedModel Spec Crash Proofs.ArrayRefine Proofs.ArrayHist Proofs.CrashSafe
      Proofs.RaggedBase Proofs.RaggedRefine Proofs.RaggedProps Proofs.RCrashSafe
-     Skel Gen_effects EffectOrder Proofs.SkelProofs EffectOrderR Proofs.SkelRProofs.
+     Skel Gen_effects EffectOrder Proofs.SkelProofs EffectOrderR Proofs.SkelRProofs Proofs.SkelTeeth.
 Import ListNotations.
 Open Scope Z_scope.
 
@@ -136,6 +137,15 @@ Example C17_order_example :
   | (r, _, es) => r = Err AppendDataError /\ map kind_of es = [KAppend; KDescr; KReadme; KTrunc]
   end.
 Proof. cbn. split; reflexivity. Qed.
+
+(* the skeleton semantics discriminates: a truncate_array that rewrote the description
+   before cutting the file, and a truncate_raggedarray that cut values/ before indices/
+   (seeded change C17-m27), would NOT admit the logs of the model *)
+Example C17_order_semantics_discriminates :
+  (~ aruns (Seq (Call "_update_len"%string) (Call "truncate"%string)) Normal [KTrunc; KDescr; KReadme]) /\
+  (~ rruns (Seq (Call "truncate_array@_values"%string) (Call "truncate_array@_indices"%string)) Normal
+           (map KI [KTrunc; KDescr; KReadme] ++ map KV [KTrunc; KDescr; KReadme])).
+Proof. exact (conj swapped_truncate_not_admitted ragged_values_first_not_admitted). Qed.
 
 (* non-vacuity: a torn second chunk and a torn descriptor *)
 Definition ex_s : sarr := mkSarr Int16 Little OrdC [] [[1;0]] RW false.
